@@ -11,6 +11,7 @@ from props import c02
 
 TRUSTED = c02.TRUSTED + [
     "tools/extractors/c01.py transcribes the folder's INT_MIN/INT_MAX/MAX_FOLDED_STRING_LEN and the pass pipeline per level",
+    "coq/Model/VmArith.v (hand model of the VM's generic arithmetic on NaN-boxed words, tied to the real dispatch loop by C06's hx_vmop) for C01_fold_equals_vm_runtime",
     "coq/Model/Opt/Fold.v is a hand model of opt/src/passes/constant_fold (int/bool/string kernels and traversal; float folding not modelled); "
     "the other passes (inliner, local/global const-prop, DCE, unused-vars) are NOT modelled: they are validated per program, not proved",
 ]
@@ -119,7 +120,7 @@ def behaviours_equal(b0, bl):
 def run(ctx):
     ctx.level = "proof"
     ctx.cov["trusted_base"] = TRUSTED
-    proved = ctx.prove("C01", extracted=["OptConsts"])
+    proved = ctx.prove("C01", extracted=["OptConsts", "ValueConsts", "Opcodes"])
     if ctx.tier == "thorough" and proved:
         ctx.coqchk("C01")
     ok, out = vlib.coq_make(["Model/EvalObs.vo", "Model/Opt/FoldObs.vo"])
